@@ -694,3 +694,85 @@ Proof.
   exact (C01_call_no_panic_all oracle_trivial oracle_trivial_valid oracle_trivial_display_safe true 3 [] this f args st
            eq_refl Ht Hf Ha).
 Qed.
+
+(* ==================================================================================================
+   PRATT FUEL (extension PF1): the fuel gap between the TEXT layer and the evaluator theorems is closed.
+   (a) proofs/PrattFuelAll.v: for EVERY item list (nested groups included; also the ones on which the glue
+       answers Err or panics), every operator table and every closure map, the transcription of pest's Pratt
+       loop + pairs_to_expr_inner (Pratt.parse_items) run with the fuel Pratt.pratt gives it —
+       fuel_of its = 4 * items_size its + 4, items_size = number of pairs, nested ones included — never returns
+       the model's out-of-fuel outcome (3 * items_size its + 2 suffices).  Induction on the fuel over the five
+       mutually recursive functions, no bound.
+   (b) proofs/PrattFuelAllText.v: hence no statement of any text is TGlueFuel, and with C10's PEG totality:
+       for EVERY byte string, every inputs object and every oracle, run_text_res (eval_all o) is TRun sr with no
+       `Unmodelled` result in sr, or TReject, or TParsePanic — C01_text_run_never_unmodelled without its
+       hypothesis.  The all-or-nothing parse view never answers TPFuel.
+   (c) of the glue model's explicit Panic arms, the statement loop's `unreachable!()` (a `statement` pair whose
+       first inner pair is none of expression / output_declaration / comment) and the "statement without inner
+       pair" case are NOT reachable on trees the PEG interpreter produces on the regenerated grammar
+       (C01_text_statement_arms_unreachable).  The arms inside Pratt.v (operator in primary position, empty
+       token stream, …) and the PEG engine's stack `expect`s (TParsePanic) are not excluded by a theorem; the
+       TEXT-EVAL / PARSE-text streams count them (0).  notes/ext-pf1.md lists them. *)
+Require Blots.proofs.PrattFuelAll Blots.proofs.PrattFuelAllText.
+Section PrattFuelTotal.
+Import Blots.PrattTypes Blots.Pratt Blots.TextRun Blots.proofs.PrattFuelAll Blots.proofs.PrattFuelAllText.
+
+Theorem C01_pratt_fuel_sufficient : forall tbl imap pmap its,
+  parse_items tbl imap pmap (fuel_of its) its <> Outcome.Unmodelled.
+Proof. exact pratt_fuel_sufficient. Qed.
+Check C01_pratt_fuel_sufficient : forall tbl imap pmap its,
+  parse_items tbl imap pmap (4 * items_size its + 4) its <> Outcome.Unmodelled.
+Print Assumptions C01_pratt_fuel_sufficient.
+
+(* fuel_of IS the fuel the text layer hands to the Pratt model *)
+Theorem C01_pratt_impl_never_unmodelled : forall its, pratt_impl its <> Outcome.Unmodelled.
+Proof. exact pratt_impl_never_unmodelled. Qed.
+Check C01_pratt_impl_never_unmodelled : forall its, pratt_impl its <> Outcome.Unmodelled.
+Print Assumptions C01_pratt_impl_never_unmodelled.
+
+Theorem C01_text_no_glue_fuel : forall text l,
+  parse_text_stmts text = TIOk l -> Forall (fun t => t <> TGlueFuel) l.
+Proof. exact parse_text_stmts_no_glue_fuel. Qed.
+Check C01_text_no_glue_fuel : forall text l,
+  parse_text_stmts text = TIOk l -> Forall (fun t => t <> TGlueFuel) l.
+Print Assumptions C01_text_no_glue_fuel.
+
+Theorem C01_text_parse_never_fuel : forall text, parse_text_ast text <> TPFuel.
+Proof. exact parse_text_ast_never_fuel. Qed.
+Check C01_text_parse_never_fuel : forall text, parse_text_ast text <> TPFuel.
+Print Assumptions C01_text_parse_never_fuel.
+
+Theorem C01_text_run_never_unmodelled_total : forall o inputs text,
+  (exists sr, run_text_res (eval_all o) inputs text = TRun sr
+              /\ Forall (fun rs => fst rs <> Program.RFail Outcome.Unmodelled) (snd sr))
+  \/ run_text_res (eval_all o) inputs text = TReject
+  \/ run_text_res (eval_all o) inputs text = TParsePanic.
+Proof. exact run_text_never_unmodelled_total. Qed.
+Check C01_text_run_never_unmodelled_total : forall o inputs text,
+  (exists sr, run_text_res (eval_all o) inputs text = TRun sr
+              /\ Forall (fun rs => fst rs <> Program.RFail Outcome.Unmodelled) (snd sr))
+  \/ run_text_res (eval_all o) inputs text = TReject
+  \/ run_text_res (eval_all o) inputs text = TParsePanic.
+Print Assumptions C01_text_run_never_unmodelled_total.
+
+(* the canonical line the TEXT-EVAL stream compares is never the model's "FUEL" line *)
+Theorem C01_text_run_outcome_cases : forall o inputs text,
+  (exists sr, run_text o inputs text = show_run_out sr
+              /\ Forall (fun rs => fst rs <> Program.RFail Outcome.Unmodelled) (snd sr))
+  \/ run_text o inputs text = "REJECT;ENV:;OUT:"%string
+  \/ run_text o inputs text = "PANIC"%string.
+Proof. exact run_text_outcome_cases. Qed.
+Check C01_text_run_outcome_cases : forall o inputs text,
+  (exists sr, run_text o inputs text = show_run_out sr
+              /\ Forall (fun rs => fst rs <> Program.RFail Outcome.Unmodelled) (snd sr))
+  \/ run_text o inputs text = "REJECT;ENV:;OUT:"%string
+  \/ run_text o inputs text = "PANIC"%string.
+Print Assumptions C01_text_run_outcome_cases.
+
+(* two of the three outcomes are reached (the third, TParsePanic, is the PEG engine's `expect` on an empty
+   stack; no text reaching it is known, none is excluded by a theorem) *)
+Example C01_text_run_reaches_reject : run_text oracle_trivial [] "1 +" = "REJECT;ENV:;OUT:"%string.
+Proof. vm_compute. reflexivity. Qed.
+Example C01_text_run_reaches_run : run_text oracle_trivial [] "1 + 2" = "OK:N4008000000000000;ENV:;OUT:"%string.
+Proof. vm_compute. reflexivity. Qed.
+End PrattFuelTotal.
